@@ -138,6 +138,9 @@ Tags(op, S) ==
   \cup (IF depth >= 2 THEN {"nested_depth_ge2"} ELSE {})
   \cup (IF S.helper[s] # 0 THEN {"helper_active"} ELSE {})
   \cup (IF S.sw[s] THEN {"solver_switched_in_context"} ELSE {})
+  \cup (IF op.a = "LoadDoc" /\ "fmt" \in DOMAIN S.doc /\ S.doc.c.dir = "min" THEN {"doc_dir_min"} ELSE {})
+  \cup (IF op.a = "LoadDoc" /\ "fmt" \in DOMAIN S.doc /\ FmtFamily(S.doc.fmt) \in {"json", "yaml", "dict"} THEN {"doc_textfmt"} ELSE {})
+  \cup (IF op.a = "LoadDoc" /\ "fmt" \in DOMAIN S.doc /\ FmtFamily(S.doc.fmt) = "sbml" THEN {"doc_sbml"} ELSE {})
   \cup (IF IsModel(S.m[s]) /\ S.m[s].solver = "glpk_exact" THEN {"solver_exact"} ELSE {})
   \cup (IF IsModel(S.m[s]) /\ (\E r \in S.m[s].rxns : S.m[s].lb[r] = -INF \/ S.m[s].ub[r] = INF) THEN {"infinite_bound"} ELSE {})
   \cup (IF IsModel(S.m[s]) /\ S.m[s].dir = "min" THEN {"dir_min"} ELSE {})
@@ -227,7 +230,7 @@ Next ==
                ctx |-> [s \in Slots |-> IF ev.obs[s].present /\ ev.obs[s].ctx = Len(E.ctx[s]) THEN E.ctx[s]
                                         ELSE IF ev.obs[s].present /\ ev.obs[s].ctx < Len(E.ctx[s])
                                              THEN SubSeq(E.ctx[s], 1, ev.obs[s].ctx) ELSE E.ctx[s]],
-               helper |-> E.helper, sw |-> E.sw, taint |-> E.taint]
+               helper |-> E.helper, sw |-> E.sw, taint |-> E.taint, doc |-> E.doc]
      IN
      /\ (diffs \cup newBad # {}) =>
            PrintT(ToJson([verdict |-> "MISMATCH", tid |-> Traces[tid].tid, l |-> l + 1, action |-> op.a, op |-> op,
